@@ -22,13 +22,29 @@ from common import main
 sys.path.insert(0, os.environ.get("VERIF_REPO", "/repo"))
 
 NAMES = ["a.ics", "b.ics"]
-UIDS = ["u1", "u2"]
+# one UID with characters that are escaped in the serialised form, one long enough to be folded
+UIDS = ["u\\,1\\;x", "u2-" + "0123456789" * 9]
+
+
+# a long text with blanks at many offsets: when it is folded at 75 octets some physical line ends
+# in a blank that belongs to the value (checked once below)
+PROSE = " ".join("abcdefg"[: 1 + (i * 5) % 7] for i in range(160))
+
+
+def _prose_is_effective():
+    from icalendar.cal import Calendar
+
+    body = ics("probe", 1).encode()
+    out = Calendar.from_ical(body).to_ical()
+    return any(l.endswith(b" ") for l in out.split(b"\r\n"))
 
 
 def ics(uid, n):
     # version 1 carries multi-valued properties in a non-sorted order (C14: what is stored is
     # the normalised upload, whatever the server computed on the way - e.g. the commit message)
-    extra = "" if n == 0 else "CATEGORIES:zeta\r\nCATEGORIES:alpha\r\nATTENDEE:mailto:z@example.com\r\nATTENDEE:mailto:a@example.com\r\n"
+    # ... and a long text whose 75-octet folds fall next to blanks (several offsets)
+    prose = "DESCRIPTION:" + PROSE + "\r\n"
+    extra = "" if n == 0 else ("CATEGORIES:zeta\r\nCATEGORIES:alpha\r\nATTENDEE:mailto:z@example.com\r\nATTENDEE:mailto:a@example.com\r\n" + prose)
     return (f"BEGIN:VCALENDAR\r\nVERSION:2.0\r\nPRODID:-//x//y//EN\r\nBEGIN:VEVENT\r\nUID:{uid}\r\n"
             f"DTSTAMP:20200101T000000Z\r\nDTSTART:20200101T000000Z\r\nSUMMARY:v{n}\r\n{extra}END:VEVENT\r\nEND:VCALENDAR\r\n")
 
@@ -198,6 +214,15 @@ def run_history(backend, hist):
                     stored = b"".join(s._get_raw(name, retag))
                     if stored != fresh:
                         return fail(("the stored bytes are the normalised upload (C14)", f"stored {stored[-160:]!r}"), step)
+                    # C14 fixed point: uploading the stored bytes again is a no-op (same etag, no commit)
+                    c0 = git_state(s)[0] if is_git else 0
+                    try:
+                        (_, e2) = s.import_one(name, "text/calendar", [stored], replace_etag=retag)
+                    except Exception as e:
+                        return fail(("re-uploading the stored bytes is accepted", f"{type(e).__name__}: {e}"), step)
+                    if e2 != retag or (is_git and git_state(s)[0] != c0):
+                        return fail(("re-uploading the stored bytes keeps the etag and adds no commit (C14)",
+                                     f"etag {retag} -> {e2}, commits {c0} -> {git_state(s)[0] if is_git else 0}"), step)
                     if cur is not None and cur != retag:
                         stale[name] = cur
                     changed = cur != retag
@@ -258,6 +283,8 @@ def histories(depth, seed, sample):
 
 class Explore:
     def bounded(self, req):
+        if not _prose_is_effective():
+            return {"error": "harness: the folded test text has no physical line ending in a blank (C14 fixed-point oracle would be vacuous)"}
         tier = req.get("tier", "quick")
         seed = int(req.get("seed", 0) or 0)
         backends = req.get("backends") or ["tree-git", "bare-git", "vdir"]
